@@ -1,0 +1,31 @@
+//go:build verif
+
+// Contracts for package searcher, checked by /verif/bin/govc (comment-only file).
+package searcher
+
+//@ fileprops C10
+
+// cov[v]: "v lies in a range that has already been emitted" (ghost; emitting a
+// range is what newRange means, see its effect clause).
+//@ ghost var cov map[int64]bool
+
+//@ spec fn lowmask(s uint) int64 = (1 << s) - 1
+
+//@ func newRange
+//@   mode bv
+//@   modifies cov
+//@   effect forall v int64 :: cov[v] == (old(cov)[v] || (minBound <= v && v <= (maxBound | lowmask(shift))))
+//@   ensures result != nil
+
+//@ func splitInt64Range
+//@   mode bv
+//@   nopanic
+//@   requires 1 <= precisionStep && precisionStep <= 63
+//@   requires forall v int64 :: !cov[v]
+//@   ensures [exact-cover] forall v int64 :: cov[v] <==> (minBound <= v && v <= maxBound)
+//@   loop 1
+//@     invariant shift < 64 && 1 <= precisionStep && precisionStep <= 63
+//@     invariant minBound & lowmask(shift) == 0 && maxBound & lowmask(shift) == 0
+//@     invariant minBound <= maxBound
+//@     invariant [cover] forall v int64 :: (old(minBound) <= v && v <= old(maxBound)) <==> (cov[v] || (minBound <= v && v <= (maxBound | lowmask(shift))))
+//@     decreases 64 - shift
